@@ -2488,9 +2488,13 @@ def project_C07(case, line):
         return line
     toks = line.split(" ")
     out = toks[:4]
-    for tk in toks[5:]:
+    times = case.split(" ")[5:]
+    t3 = toks[2][2:] if len(toks) > 2 and toks[2].startswith("T:") else None
+    for i, tk in enumerate(toks[5:]):
         p = tk.split("/")
-        if len(p) != 6 or p[0] in ("BS", "CO"):
+        if len(p) == 6 and p[0] == "CO" and t3 is not None and i < len(times) and times[i] == t3:
+            out.append("-/" + "/".join(p[3:5]))      # the completion instant t3 is inside [0, t3]: velocity and position there are C07's
+        elif len(p) != 6 or p[0] in ("BS", "CO"):
             out.append("-")
         else:
             out.append("/".join(p[2:5]))
